@@ -196,9 +196,10 @@ def open_by_content_type(
       content_type: MIME type
     Returns: File instance
     """
-    return extra_file_handlers.get(content_type.split(";")[0], File)(
-        content, content_type
-    )
+    # Media types are case-insensitive and may be followed by white space
+    # before the parameters (RFC 7231 section 3.1.1.1).
+    media_type = content_type.split(";")[0].strip().lower()
+    return extra_file_handlers.get(media_type, File)(content, content_type)
 
 
 def open_by_extension(
